@@ -229,6 +229,12 @@ func preliminaryProcessesChecks(processes []*Process, assumedFreeNames []Name, g
 			return fmt.Errorf("(%s) type error in process %s; %s", processes[i].Position.String(), processes[i].OutlineString(), err)
 		}
 
+		// A process declared under several provider names is duplicated (one copy per name),
+		// which is only allowed for types whose mode admits contraction
+		if len(processes[i].Providers) > 1 && !types.IsContractable(processes[i].Type) {
+			return fmt.Errorf("(%s) process %s is declared with %d provider names, but its type is in %s mode, which cannot be duplicated", processes[i].Position.String(), processes[i].OutlineString(), len(processes[i].Providers), processes[i].Type.Modality().FullString())
+		}
+
 		// Check also that the free names being used exist either as one of the other provider names, or as an assumed free name
 		processFreeNames := processes[i].Body.FreeNames()
 		// Remove provider names, since those are bound
